@@ -17,7 +17,7 @@ from vmon import bits
 LEVEL = "exploration"
 SHARDS = {"quick": 8, "thorough": 16}
 MUST = ["battery.int", "battery.float", "battery.str", "battery.bytes", "battery.bool", "copy.values", "copy.packets",
-        "rawdefault.checks", "pair.ops", "harvested.segmented_packets", "copy.independence_checks", "rewrap.checks", "rewrap.compared", "harvested.values", "harvested.class_vs_model"]
+        "rawdefault.checks", "pair.ops", "harvested.segmented_packets", "copy.independence_checks", "rewrap.checks", "rewrap.compared", "harvested.values", "harvested.raw_value_types", "harvested.class_vs_model"]
 RULE = ("for every (class, value, raw_value) case the harness builds v = Class(value[, raw_value]) and the plain "
         "built-in twin, runs ~60 operations on both (comparison, hash, bool, repr/str/format, arithmetic, "
         "conversion, slicing, containment, codec, dict-key and sort use) and compares outcome and outcome type "
@@ -497,6 +497,12 @@ def harvest_generated(ctx):
                 kind, base = kinds[cls]
                 plainv = plain(val) if kind != "bool" else bool(val)
                 rv = val.raw_value
+                from space_packet_parser import common as _cm
+                if type(rv) not in (int, float, str, bytes, bool, _cm.IntParameter, _cm.FloatParameter, _cm.StrParameter, _cm.BinaryParameter, _cm.BoolParameter):
+                    # the raw encoded value is a plain built-in (or the value object itself when there is no separate raw value)
+                    ctx.violation(f"harvest/raw_value-class/{type(rv).__name__}", f"raw_value of parsed item {name} ({cls.__name__}) is a {type(rv).__name__}: {str(rv)[:80]!r}",
+                                  {"item": name, "raw_value_type": type(rv).__name__})
+                ctx.count("harvested.raw_value_types")
                 key = (cls, category(plainv), category(plain(rv)), info.feat.get(name, "?"))
                 if key in seen:
                     continue
@@ -545,6 +551,12 @@ def harvest(ctx):
                         seen.add(key)
                         ctx.count("harvested.values")
                         rv = val.raw_value
+                        from space_packet_parser import common as _cm
+                        if type(rv) not in (int, float, str, bytes, bool, _cm.IntParameter, _cm.FloatParameter, _cm.StrParameter, _cm.BinaryParameter, _cm.BoolParameter):
+                            # the raw encoded value is a plain built-in (or the value object itself when there is no separate raw value)
+                            ctx.violation(f"harvest/raw_value-class/{type(rv).__name__}", f"raw_value of parsed item {name} ({cls.__name__}) is a {type(rv).__name__}: {str(rv)[:80]!r}",
+                                          {"item": name, "raw_value_type": type(rv).__name__})
+                        ctx.count("harvested.raw_value_types")
                         has = not (type(plain(rv)) is type(plainv) and same(plain(rv), plainv))
                         check_value(ctx, cls, kind, base, plainv, plain(rv) if has else None, has, origin=f"{xml}:{name}")
                 gen.close()
